@@ -198,6 +198,28 @@ async def agcm_x(k):
         await trap("in-exit")
 
 
+@contextmanager
+def gcmu(k):
+    """a wrapper that is unwrapped: its hook hands out the manager it holds open"""
+    with CM(k):
+        yield k
+
+
+@asynccontextmanager
+async def agcmu(k):
+    with CM(k):
+        yield k
+
+
+def _unwrapping_hook(frame, ctx):
+    tick("unwrap_context_generator")
+    return frame.contexts[0].obj if frame.contexts else None
+
+
+unwrap_context_generator.register(gcmu, _unwrapping_hook)
+unwrap_context_generator.register(agcmu, _unwrapping_hook)
+
+
 for _g in (gcm0, gcm1, agcm0, agcm1, agcm_x):
     def _mk(g):
         def hook(frame, ctx):
@@ -259,6 +281,8 @@ def make_mgr(spec, is_async):
         return Wrap(spec[1])
     if t == "gcm":
         return agcm0(spec[1]) if is_async else gcm0(spec[1])
+    if t == "gcmu":
+        return agcmu(spec[1]) if is_async else gcmu(spec[1])
     if t == "gcm1":
         return agcm1(spec[1], make_mgr(spec[2], True)) if is_async else gcm1(spec[1], make_mgr(spec[2], False))
     if t == "stack":
@@ -277,6 +301,8 @@ def fill_stack(st, entries):
             st.enter_context(Wrap(e[1]))
         elif t == "gcm":
             st.enter_context(gcm0(e[1]))
+        elif t == "gcmu":
+            st.enter_context(gcmu(e[1]))
         elif t == "callback":
             st.callback(some_cb, 1, x=2)
         elif t == "push_fn":
@@ -422,12 +448,18 @@ def _walk_ctx(c, out):
 
 
 def errors_of(st):
+    """the exceptions retrievable from st.error: itself, or - recursively - the members of exception groups"""
     if st.error is None:
         return []
-    ex = getattr(st.error, "exceptions", None)
-    if ex is not None and type(st.error).__name__ == "ExceptionGroup":
-        return list(ex)
-    return [st.error]
+    out, todo = [], [st.error]
+    while todo:
+        e = todo.pop(0)
+        sub = getattr(e, "exceptions", None)
+        if sub is not None and type(e).__name__ == "ExceptionGroup":
+            todo = list(sub) + todo
+        else:
+            out.append(e)
+    return out
 
 
 def run_plan(target, plan):
@@ -467,7 +499,9 @@ def judge(base, st, plan):
             continue
         holder = holders[0]
         want = T.results.get(tok)
-        if want is not None and holder is not want:
+        if want is not None and holder is not want and any(x is want for x in stacks):
+            # (a Stack that was being built for a wrapper manager which was then unwrapped is not part of the result any
+            # more; its errors are reported one level up)
             problems.append("exception injected at %s#%d is reported on a different Stack than the one being built" % (site, k))
         errs = errors_of(holder)
         if len(errs) == 1 and holder.error is not ex:
